@@ -3,6 +3,9 @@ import Mathlib.Tactic.Ring
 import Mathlib.Algebra.BigOperators.Group.List.Basic
 import OnlVerif.Lemmas.Port
 import OnlVerif.Net.GenSink
+import OnlVerif.Lemmas.NetworkNodes
+import OnlVerif.Lemmas.NetworkOrder
+import OnlVerif.Lemmas.NetworkDrain
 /-!
 # C08 — packets are never lost, duplicated or invented between source and sink
 
@@ -156,5 +159,334 @@ theorem sink_interarrival (r : SinkRec ℚ) (d : Delivery ℚ) :
 /-! non-vacuity -/
 example : (Gen.run (0 : ℚ) 1 (some 3) [(1, 100), (1, 200), (2, 50), (1, 70)]).map (fun p => (p.id, p.time, p.size)) =
     [(1, 2, 100), (2, 3, 200)] := by decide +kernel
+
+end C08
+
+/-!
+# C08, composition — a whole network of elements
+
+Model: `OnlVerif/Net/Network.lean`.  A network is an arbitrary wiring function `next : ι → π → Dest ι` over an arbitrary node
+type `ι` (`Fin N` for every `N`; cycles, fan-in and fan-out included — the destination is a function of the packet, so
+demultiplexers and switches are covered), splitter nodes that make fresh copies, sources that inject fresh packets.  Every node
+carries the account all element LTSs carry (`inn`, `made`, `out`, `dropped`, `held`).  "For all networks, workloads and
+schedules" = for every wiring `n` and every list of global steps `es` that `Net.run` accepts from the empty network — any
+length, any interleaving.  Proofs: `Lemmas/NetworkCount.lean` (counting), `NetworkInv.lean` (the invariant and its preservation
+by every legal global step), `NetworkThm.lean`.
+-/
+
+namespace C08
+open Net
+
+section Network
+variable {ι π κ : Type} [DecidableEq ι] [DecidableEq π] [DecidableEq κ]
+
+/-- **Every packet of a network is, at every instant, in exactly one place**: for every wiring (any node type, any `next`
+function of the packet: chains, fan-in, fan-out, cycles; splitters) and every accepted sequence of global steps from the
+empty network, every packet that was introduced — injected by a source, or made by a splitter as a copy — is in exactly
+one *place* (held by one node, or dropped by one node — the `dropped` list records the rule with it —, or delivered to one
+sink), exactly once there, both as a record and by its key (no second record with the same key is anywhere); nothing is
+in any place, nor in any log of any node, that was not introduced (nothing invented); the keys of the introduced packets
+are pairwise different; every copy is linked to an introduced original of which it is a copy and was made by a splitter
+node; and every node's account balances: handed in + made = forwarded + dropped + held, as multisets. -/
+theorem network_conserves (n : Wiring ι π κ) (es : List (GEv ι π)) (g : GState ι π) (h : Net.run n {} es = .ok g) :
+    (∀ p ∈ g.introduced, ∃ s : Slot ι, s.isPlace = true ∧ (g.recs s).count p = 1 ∧
+        ∀ s' : Slot ι, s'.isPlace = true → ((g.recs s').map n.key).count (n.key p) = if s' = s then 1 else 0) ∧
+    (∀ (s : Slot ι) (q : π), q ∈ g.recs s → q ∈ g.introduced) ∧
+    (g.introduced.map n.key).Nodup ∧
+    (∀ cp ∈ g.copies, cp.1 ∈ g.introduced ∧ cp.2 ∈ g.introduced ∧ n.isCopy cp.2 cp.1 = true) ∧
+    (∀ a q, q ∈ (g.acct a).made → n.splitter a = true ∧ ∃ o, (q, o) ∈ g.copies) ∧
+    (∀ a, ((g.acct a).inn ++ (g.acct a).made).Perm
+        ((g.acct a).out ++ (g.acct a).dropped.map (·.1) ++ (g.acct a).held)) := by
+  have hi := run_inv n es {} g (ginv_init n) h
+  refine ⟨fun p hp => hi.one_place p hp, hi.known, hi.keys, fun cp hcp => ?_, hi.made, hi.acct_perm⟩
+  have := hi.link cp hcp
+  refine ⟨?_, this.1, this.2⟩
+  simp only [GState.introduced, List.mem_append, List.mem_map]
+  exact Or.inr ⟨cp, hcp, rfl⟩
+
+/-- **What is forwarded, delivered, dropped or held is the very same record that was injected**: whatever occurs in any
+list of any node or sink — handed in, forwarded, dropped, held, delivered — is one of the introduced records, and it is
+*the* introduced record with its key: every introduced record with the same key is equal to it in every field (for the
+model's packet type `NPkt`: id, copy number, flow, source, size, creation time, payload).  (In the account network a node can
+only forward a record it holds; for networks of element transition systems this is the assumption `IdPreserving` on local
+steps, see `network_identity_lts`.) -/
+theorem network_identity (n : Wiring ι π κ) (es : List (GEv ι π)) (g : GState ι π) (h : Net.run n {} es = .ok g)
+    (s : Slot ι) (q : π) (hq : q ∈ g.recs s) :
+    q ∈ g.introduced ∧ ∀ p ∈ g.introduced, n.key p = n.key q → p = q := by
+  have hi := run_inv n es {} g (ginv_init n) h
+  exact ⟨hi.known s q hq, fun p hp hk => hi.key_inj (hi.known s q hq) hp hk⟩
+
+/-! ### networks of element transition systems (`Net.Node`, `Net.LStep`): every node runs its own LTS -/
+
+/-- **A network of element transition systems is a network of accounts**: let every node be a transition system of its
+own that satisfies the node interface (`NodeLaw`: an accepted packet is held afterwards, an emitted or discarded one is held
+no longer, nothing else changes what is held) and is `IdPreserving` (what it emits or discards is a record it holds).  Then
+every run of the network — any wiring, any interleaving of the nodes' local transitions, hand-overs synchronous — is an
+accepted run of the account network (so `network_conserves` and `network_identity` hold of it), every node's invariant
+holds, and the `held` list of its account is what the node holds locally. -/
+theorem network_refines {σ : Type} (n : Wiring ι π κ) (nd : ι → Node π σ) (law : ∀ a, NodeLaw (nd a))
+    (hid : ∀ a, IdPreserving (nd a)) (loc0 : ι → σ) (h0 : ∀ a, (nd a).Inv (loc0 a) ∧ (nd a).heldOf (loc0 a) = [])
+    (L : LState ι π σ) (es : List (GEv ι π)) (h : LReach n nd loc0 L es) :
+    Net.run n {} es = .ok L.g ∧
+    ∀ a, (nd a).Inv (L.loc a) ∧ ((nd a).heldOf (L.loc a)).Perm (L.g.acct a).held :=
+  lreach_run n nd law hid loc0 h0 L es h
+
+/-- **The very same packet, in a network of element transition systems**: under the assumption `IdPreserving` on the local
+steps (no node emits or discards anything but a record it holds), whatever any node holds locally, and whatever occurs in
+any list of any node or sink, is an introduced record and the only introduced record with its key. -/
+theorem network_identity_lts {σ : Type} (n : Wiring ι π κ) (nd : ι → Node π σ) (law : ∀ a, NodeLaw (nd a))
+    (hid : ∀ a, IdPreserving (nd a)) (loc0 : ι → σ) (h0 : ∀ a, (nd a).Inv (loc0 a) ∧ (nd a).heldOf (loc0 a) = [])
+    (L : LState ι π σ) (es : List (GEv ι π)) (h : LReach n nd loc0 L es) :
+    (∀ a, ∀ q ∈ (nd a).heldOf (L.loc a), q ∈ L.g.introduced ∧ ∀ p ∈ L.g.introduced, n.key p = n.key q → p = q) ∧
+    (∀ (s : Slot ι), ∀ q ∈ L.g.recs s, q ∈ L.g.introduced ∧ ∀ p ∈ L.g.introduced, n.key p = n.key q → p = q) := by
+  obtain ⟨hr, hc⟩ := lreach_run n nd law hid loc0 h0 L es h
+  refine ⟨fun a q hq => ?_, fun s q hq => network_identity n es L.g hr s q hq⟩
+  exact network_identity n es L.g hr (.held a) q (((hc a).2.mem_iff).mp hq)
+
+/-- **At quiescence nothing is held anywhere**: if every node of a network of element transition systems is quiescent
+(its own skeleton's `Quiescent`, under which it holds nothing — `NodeLaw.drained`), then no node's account holds a
+packet, and every introduced packet has either been delivered to exactly one sink or been dropped by exactly one node
+(rule recorded), exactly once, and is nowhere else: introduced = delivered ⊎ dropped, network-wide. -/
+theorem network_drains {σ : Type} (n : Wiring ι π κ) (nd : ι → Node π σ) (law : ∀ a, NodeLaw (nd a))
+    (hid : ∀ a, IdPreserving (nd a)) (loc0 : ι → σ) (h0 : ∀ a, (nd a).Inv (loc0 a) ∧ (nd a).heldOf (loc0 a) = [])
+    (L : LState ι π σ) (es : List (GEv ι π)) (h : LReach n nd loc0 L es) (hq : ∀ a, (nd a).Quiescent (L.loc a)) :
+    (∀ a, (L.g.acct a).held = []) ∧
+    (∀ p ∈ L.g.introduced, ∃ s : Slot ι, ((∃ k, s = .sink k) ∨ (∃ a, s = .dropped a)) ∧ (L.g.recs s).count p = 1 ∧
+        ∀ s' : Slot ι, s'.isPlace = true → s' ≠ s → p ∉ L.g.recs s') := by
+  obtain ⟨hr, hc⟩ := lreach_run n nd law hid loc0 h0 L es h
+  have hi := run_inv n es {} L.g (ginv_init n) hr
+  have hheld : ∀ a, (L.g.acct a).held = [] := by
+    intro a
+    have := (hc a).2
+    rw [(law a).drained _ (hc a).1 (hq a)] at this
+    exact this.nil_eq.symm
+  refine ⟨hheld, fun p hp => ?_⟩
+  obtain ⟨s, hs, h1, ho⟩ := (hi.exact p).1 hp
+  refine ⟨s, ?_, h1, fun s' hs' hne hm => ?_⟩
+  · cases s with
+    | sink k => exact Or.inl ⟨k, rfl⟩
+    | dropped a => exact Or.inr ⟨a, rfl⟩
+    | held a =>
+      have : L.g.rc (.held a) p = 0 := by simp [GState.rc, GState.recs, hheld a]
+      omega
+    | inn a => cases hs
+    | made a => cases hs
+    | out a => cases hs
+  · have := ho s' hs' hne
+    have := mem_of_rc_pos.mp hm
+    omega
+
+/-- **Network-wide drain as one multiset equation**: in a quiescent network of element transition systems, for every
+duplicate-free list `nodes` that contains every node that dropped something (all nodes of a finite network, say), the introduced
+packets are exactly — as a multiset, each once — the packets delivered to the sinks together with the packets dropped by
+the nodes: introduced = delivered ⊎ dropped. -/
+theorem network_drains_multiset {σ : Type} (n : Wiring ι π κ) (nd : ι → Node π σ) (law : ∀ a, NodeLaw (nd a))
+    (hid : ∀ a, IdPreserving (nd a)) (loc0 : ι → σ) (h0 : ∀ a, (nd a).Inv (loc0 a) ∧ (nd a).heldOf (loc0 a) = [])
+    (L : LState ι π σ) (es : List (GEv ι π)) (h : LReach n nd loc0 L es) (hq : ∀ a, (nd a).Quiescent (L.loc a))
+    (nodes : List ι) (hn : nodes.Nodup) (hall : ∀ a, (L.g.acct a).dropped ≠ [] → a ∈ nodes) :
+    L.g.introduced.Perm (L.g.delivered.map (·.2) ++ nodes.flatMap fun a => (L.g.acct a).dropped.map (·.1)) := by
+  obtain ⟨hr, _⟩ := lreach_run n nd law hid loc0 h0 L es h
+  have hi := run_inv n es {} L.g (ginv_init n) hr
+  exact drained_perm n L.g hi (network_drains n nd law hid loc0 h0 L es h hq).1 nodes hn hall
+
+/-- **Packets of one flow arrive at the end of a chain in the order they entered it**: let `sel` select packets (a flow, a
+source, …) and let `a₀ → a₁ → … → aₙ` be a chain of nodes such that, for each link `aᵢ → aᵢ₊₁`, the wiring sends every selected
+packet `aᵢ` forwards to `aᵢ₊₁` and no other node does (`Link`: linear chains, tree fan-out keyed by flow), no source injects
+selected packets at `aᵢ₊₁`, and `aᵢ` is order-preserving on the selected packets (what it forwarded is, in order, among what
+was handed to it — for every FifoServer this is `flow_order` above, for the schedulers per flow `C12.mq_flow_fifo`,
+`C12.stamp_flow_fifo_wfq/_vc`).  Then in every reachable state the selected packets handed to `aₙ` are, in the same order, among
+the selected packets handed to `a₀` — for every `n`, by induction along the chain; each link contributes the invariant
+"handed to `aᵢ₊₁` = forwarded by `aᵢ`, as lists", proved over all runs. -/
+theorem network_flow_order (n : Wiring ι π κ) (sel : π → Bool) (es : List (GEv ι π)) (g : GState ι π)
+    (hr : Net.run n {} es = .ok g) (a0 : ι) (chain : List ι)
+    (hc : ChainOK (fun a b => Link n sel a b ∧ NoInject es sel b ∧ OrderPreserving g sel a) a0 chain) :
+    ((g.recs (.inn (lastOf a0 chain))).filter sel).Sublist ((g.recs (.inn a0)).filter sel) ∧
+    ChainOK (fun a b => (g.recs (.inn b)).filter sel = (g.recs (.out a)).filter sel) a0 chain := by
+  refine ⟨chain_order n sel es g hr chain a0 hc, ?_⟩
+  induction chain generalizing a0 with
+  | nil => trivial
+  | cons b rest ih =>
+    obtain ⟨⟨hl, hni, _⟩, hrest⟩ := hc
+    exact ⟨link_inv n sel a0 b hl es hni {} g hr rfl, ih b hrest⟩
+
+end Network
+
+/-! ### the element skeletons are nodes -/
+
+section Instances
+
+/-- **Every FifoServer device is a node** (Port, Wire, TokenBucket, TwoRateTokenBucket — every `d` with `Fifo.IdPreserving d`):
+with packets identified by their ids, invariant `Fifo.Shape`, held packets `Fifo.held` and quiescence `Fifo.Quiescent`, each
+accepted action of the LTS is a local transition (`put` accepted / refused = `recv`, a departure = `emit`, a wire loss =
+`discard`, everything else internal) satisfying the node interface and the id-preservation assumption.  From
+`Fifo.step_conserves` (the step form of `Fifo.run_conserves`) and `Fifo.quiescent_held_empty`. -/
+theorem fifo_node {δ : Type} (d : Dev ℚ δ) (hd : Fifo.IdPreserving d) :
+    NodeLaw (fifoNode d) ∧ Net.IdPreserving (fifoNode d) ∧
+    ∀ dev0 t0, (fifoNode d).Inv (Fifo.init dev0 t0) ∧ (fifoNode d).heldOf (Fifo.init dev0 t0) = [] :=
+  ⟨fifoNode_law d hd, fifoNode_id d hd, fun dev0 t0 => ⟨Fifo.init_shape dev0 t0, Fifo.init_held dev0 t0⟩⟩
+
+/-- **Every lawful multi-queue scheduler is a node** (SP, RR, WRR, DRR — `MQ.Lawful sc`, `C12.mq_instances_lawful`): over a
+duplicate-free list `cs` of its classes that contains the class of every configured flow, with invariant `MQ.Inv`, held
+packets = the per-class held lists of C12's "Per-class FIFO and conservation" (`MQ.heldC`) one after the other, quiescence =
+the clock may advance and no transmission is in progress (the hypothesis of `C12.mq_every_packet_once`).  From `MQ.step_inv`
+(the step form of `C12.mq_class_fifo`), summed over the classes.  Departures count for packets of configured flows. -/
+theorem mq_node {κ : Type} (sc : MQ.Sched ℚ κ) (L : MQ.Lawful sc) (cs : List Nat) (hn : cs.Nodup)
+    (hcs : ∀ f c, sc.classOf f = some c → c ∈ cs) :
+    NodeLaw (mqNode sc cs) ∧ Net.IdPreserving (mqNode sc cs) ∧
+    ∀ k0 t0 counts, (∀ e ∈ counts, e.2 = 0) →
+      (mqNode sc cs).Inv (MQ.start k0 t0 counts) ∧ (mqNode sc cs).heldOf (MQ.start k0 t0 counts) = [] := by
+  refine ⟨mqNode_law sc L cs hn hcs, mqNode_id sc L cs hcs, fun k0 t0 counts hz => ?_⟩
+  have h0 := MQ.init_inv sc k0 t0 counts hz
+  refine ⟨h0.1, ?_⟩
+  show mqHeld sc cs (MQ.start k0 t0 counts) = []
+  unfold mqHeld
+  rw [List.flatMap_eq_nil_iff]
+  intro c _
+  exact h0.2 c
+
+/-- **Every stamp scheduler is a node** (WFQ, VirtualClock): invariant `Stamp.GInv`, held packets `Stamp.held`, quiescence =
+the clock may advance with nothing in transmission (the hypothesis of `C12.stamp_every_packet_once`).  From `Stamp.step_ginv`
+(the step form of that theorem) and `Stamp.tick_idle_empty`. -/
+theorem stamp_node {σ : Type} (d : Sched ℚ σ) :
+    NodeLaw (stampNode d) ∧ Net.IdPreserving (stampNode d) ∧
+    ∀ sch0 t0, (stampNode d).Inv (Stamp.init sch0 t0) ∧ (stampNode d).heldOf (Stamp.init sch0 t0) = [] := by
+  refine ⟨stampNode_law d, stampNode_id d, fun sch0 t0 => ⟨Stamp.init_ginv sch0 t0, ?_⟩⟩
+  simp [stampNode, Stamp.held, Stamp.inHand, Stamp.waiting, Stamp.init]
+
+/-- **A demultiplexer is a node whose wiring function is its dispatch rule**: a dispatcher forwards synchronously, so as a
+node it is the canonical account node (it holds a packet only between its `put` and its `out.put`; lawful and id-preserving),
+and its `next` function is `FlowDemux.put` (`C18.flowdemux_rule`): a packet of flow `f` goes to output `f`, else to the default
+output, else nowhere (a sink number of its own) — and what is handed on is the object that was put (same id, same copy
+number). -/
+theorem demux_node {ι : Type} (c : Route.FlowDemuxCfg) (dest : Route.Dev → Dest ι) (nowhere : Nat) (p : NPkt) :
+    NodeLaw (acctNode NPkt) ∧ Net.IdPreserving (acctNode NPkt) ∧
+    demuxNext c dest nowhere p = (match c.outs[p.flow]? with
+      | some d => dest d
+      | none => match c.default with
+        | some d => dest d
+        | none => .sink nowhere) ∧
+    (∀ l, Route.FlowDemux.put c (toRoute p) = .ok l → ∀ x ∈ l, x.2 = ⟨p.id, p.copy⟩) := by
+  refine ⟨acctNode_law NPkt, acctNode_id NPkt, ?_, ?_⟩
+  · unfold demuxNext
+    rw [flowDemux_put_eq]
+    cases c.outs[p.flow]? with
+    | some d => rfl
+    | none => cases c.default <;> rfl
+  · intro l hl x hx
+    rw [flowDemux_put_eq] at hl
+    cases ho : c.outs[p.flow]? with
+    | some d => rw [ho] at hl; cases hl; simp at hx; rw [hx]
+    | none =>
+      rw [ho] at hl
+      cases hd : c.default with
+      | some d => rw [hd] at hl; cases hl; simp at hx; rw [hx]
+      | none => rw [hd] at hl; cases hl; cases hx
+
+/-- **A splitter is a node that makes fresh copies**: it is the canonical account node marked as a splitter; for a held
+packet `p` and an unused copy number `k`, making the copy `{p with copy := k}` is a legal global step, after which original and
+copy are forwarded like any held packet; and this is `Splitter.put` (`C18.splitter_rule`): the original object to the first
+output, an object with the same id and the fresh copy number to the second. -/
+theorem splitter_node {ι : Type} [DecidableEq ι] (next : ι → NPkt → Dest ι) (spl : ι → Bool) (g : GState ι NPkt) (a : ι)
+    (p : NPkt) (k : Nat) (hs : spl a = true) (hp : p ∈ (g.acct a).held) (hk : k ≠ p.copy)
+    (hfresh : (p.id, k) ∉ usedKeys (nwiring next spl) g) :
+    NodeLaw (acctNode NPkt) ∧ Net.IdPreserving (acctNode NPkt) ∧
+    Net.step (nwiring next spl) g (.copy a p { p with copy := k }) =
+      .ok (Net.apply (nwiring next spl) g (.copy a p { p with copy := k })) ∧
+    (∀ d1 d2, Route.Splitter.put { out1 := some d1, out2 := some d2 } (toRoute p) k =
+      [(d1, ⟨p.id, p.copy⟩), (d2, ⟨p.id, k⟩)]) := by
+  refine ⟨acctNode_law NPkt, acctNode_id NPkt, ?_, fun d1 d2 => rfl⟩
+  have hc : NPkt.isCopyOf p { p with copy := k } = true := by
+    simp [NPkt.isCopyOf, hk]
+  simp only [Net.step, illegal, nwiring, hs, hp, not_true_eq_false, if_false, hc]
+  have : ¬ ((p.id, k) ∈ usedKeys (nwiring next spl) g) := hfresh
+  simp only [nwiring] at this
+  simp [this]
+
+end Instances
+
+/-! ### a concrete network (non-vacuity): generator → port 0 → demux 1 → { wire 2 → sink 1, DRR 3 → sink 2 } -/
+
+section Example
+
+/-- flow 0 goes to the wire (node 2), flow 1 to the DRR scheduler (node 3); the demux (node 1) is a `FlowDemux` -/
+def exNext : Nat → NPkt → Dest Nat
+  | 0, _ => .node 1
+  | 1, p => demuxNext { outs := [2, 3] } (fun d => .node d) 99 p
+  | 2, _ => .sink 1
+  | _, _ => .sink 2
+
+def exPk (id flow : Nat) : NPkt := { id := id, flow := flow, src := 7, size := 100 * id, time := id, payload := 1000 + id }
+
+/-- five packets; packet 3 is tail-dropped by the port (rule 1), packet 4 is lost on the wire (rule 2), packets 2 and 5 leave
+the DRR scheduler in the other order than they entered the network, packet 1 is still held by the wire at the end -/
+def exRun : List (GEv Nat NPkt) :=
+  [.inject 0 (exPk 1 0) .acc, .inject 0 (exPk 2 1) .acc, .inject 0 (exPk 3 0) (.ref 1), .fwd 0 (exPk 1 0) .acc,
+   .fwd 1 (exPk 1 0) .acc, .inject 0 (exPk 4 0) .acc, .tau 2, .fwd 0 (exPk 2 1) .acc, .fwd 1 (exPk 2 1) .acc,
+   .inject 0 (exPk 5 1) .acc, .fwd 0 (exPk 4 0) .acc, .fwd 1 (exPk 4 0) .acc, .drop 2 (exPk 4 0) 2,
+   .fwd 0 (exPk 5 1) .acc, .fwd 1 (exPk 5 1) .acc, .fwd 3 (exPk 5 1) .acc, .fwd 3 (exPk 2 1) .acc]
+
+/-- (held ids, dropped (id, rule)) of nodes 0–3, and the deliveries (sink, id) -/
+def exDigest (r : Except String (GState Nat NPkt)) : Option (List (List Nat × List (Nat × Nat)) × List (Nat × Nat)) :=
+  match r with
+  | .ok g => some ([0, 1, 2, 3].map (fun a => ((g.acct a).held.map (·.id), (g.acct a).dropped.map fun x => (x.1.id, x.2))),
+      g.delivered.map fun x => (x.1, x.2.id))
+  | .error _ => none
+
+/-- the run is accepted (the hypothesis of `network_conserves` / `network_identity`); at its end packet 1 is held by the wire,
+3 was dropped by the port, 4 by the wire, 5 and 2 are at sink 2 -/
+example : exDigest (Net.run (nwiring exNext) {} exRun) =
+    some ([([], [(3, 1)]), ([], []), ([1], [(4, 2)]), ([], [])], [(2, 5), (2, 2)]) := by decide +kernel
+
+/-- a step that forwards a packet the node does not hold is refused -/
+example : exDigest (Net.run (nwiring exNext) {} (exRun ++ [.fwd 3 (exPk 2 1) .acc])) = none := by decide +kernel
+
+/-- a splitter in front: node 0 is a splitter, the original goes on, the copy (copy number 1) as well; a second copy with
+the same copy number is refused -/
+example : exDigest (Net.run (nwiring (fun a p => if a = 0 then (if p.copy = 0 then .node 2 else .node 3) else exNext a p)
+      (fun a => a == 0)) {}
+    [.inject 0 (exPk 1 0) .acc, .copy 0 (exPk 1 0) { exPk 1 0 with copy := 1 }, .fwd 0 (exPk 1 0) .acc,
+     .fwd 0 { exPk 1 0 with copy := 1 } .acc, .fwd 3 { exPk 1 0 with copy := 1 } .acc]) =
+    some ([([], []), ([], []), ([1], []), ([], [])], [(2, 1)]) ∧
+  exDigest (Net.run (nwiring (fun a p => if a = 0 then (if p.copy = 0 then .node 2 else .node 3) else exNext a p)
+      (fun a => a == 0)) {}
+    [.inject 0 (exPk 1 0) .acc, .copy 0 (exPk 1 0) { exPk 1 0 with copy := 1 },
+     .copy 0 (exPk 1 0) { exPk 1 0 with copy := 1 }]) = none := by decide +kernel
+
+/-- the hypotheses of `mq_node` are met by a DRR scheduler with classes 7 and 8 -/
+example : MQ.Lawful (DRR.sched ({ rate := 8000, weights := [(7, 1), (8, 1)], flowMap := some [(1, 7), (2, 7), (3, 8)] } : DRR.Cfg ℚ)) :=
+  DRR.lawful _
+
+/-- in the example network port 0 → demux 1 is a link for all packets, and demux 1 → DRR 3 is a link for flow 1 (the
+hypotheses `Link` of `network_flow_order`); no packet is injected at nodes 1 and 3 -/
+example : Link (nwiring exNext) (fun _ => true) 0 1 ∧ Link (nwiring exNext) (fun p => p.flow == 1) 1 3 ∧
+    NoInject exRun (fun _ => true) 1 ∧ NoInject exRun (fun p => p.flow == 1) 3 := by
+  have hd : ∀ p : NPkt, demuxNext { outs := [2, 3] } (fun d => (Dest.node d : Dest Nat)) 99 p =
+      (match p.flow with | 0 => .node 2 | 1 => .node 3 | _ => .sink 99) := by
+    intro p
+    rw [(demux_node { outs := [2, 3] } (fun d => (Dest.node d : Dest Nat)) 99 p).2.2.1]
+    rcases hf : p.flow with _ | _ | k <;> simp
+  refine ⟨⟨fun p _ => rfl, ?_⟩, ⟨?_, ?_⟩, ?_, ?_⟩
+  · intro c p _ h
+    match c with
+    | 0 => rfl
+    | 1 =>
+      simp only [nwiring, exNext, hd] at h
+      rcases hf : p.flow with _ | _ | k <;> rw [hf] at h <;> simp at h
+    | 2 => simp [nwiring, exNext] at h
+    | k + 3 => simp [nwiring, exNext] at h
+  · intro p hp
+    have hf : p.flow = 1 := by simpa using hp
+    simp only [nwiring, exNext, hd, hf]
+  · intro c p hp h
+    have hf : p.flow = 1 := by simpa using hp
+    match c with
+    | 0 => simp [nwiring, exNext] at h
+    | 1 => rfl
+    | 2 => simp [nwiring, exNext] at h
+    | k + 3 => simp [nwiring, exNext] at h
+  · intro p o hm; simp [exRun] at hm
+  · intro p o hm; simp [exRun] at hm
+
+end Example
 
 end C08
